@@ -153,7 +153,11 @@ func (s *scen) del(key string) {
 	s.settle()
 	m := s.model[key]
 	if m.ver > 0 {
-		vrt.Assert("delete-of-live-key-ok", err == nil)
+		if s.knownID != "" {
+			vrt.AssertKnown("delete-of-live-key-ok", s.knownID, s.knownCond, err == nil)
+		} else {
+			vrt.Assert("delete-of-live-key-ok", err == nil)
+		}
 		m.ver = -(m.ver + 1)
 		m.body = nil
 	} else if !s.noVersion[key] {
